@@ -198,6 +198,15 @@ func Random(r *rand.Rand, ft Features) *cat.Catalog {
 				f.Rs[0].Ks = append(f.Rs[0].Ks, "I1"+name)
 			}
 			provided = append(provided, f.Rs[0].Ks...)
+		} else if len(f.Rs) == 1 && f.Rs[0].M == "grp" && pick(r, ft.PAs) {
+			// a group member given under one or two interfaces
+			k := f.Rs[0].Ks[0]
+			f.Rs[0].CT = k[:2]
+			f.Rs[0].Ks = []string{"I0" + k[2:]}
+			if pick(r, 0.6) {
+				f.Rs[0].Ks = append(f.Rs[0].Ks, "I1"+k[2:])
+			}
+			groupKeys = append(groupKeys, f.Rs[0].Ks...)
 		} else if len(f.Rs) == 1 && pick(r, 0.3) {
 			f.Enc.ViaOpt = true
 		}
